@@ -1,12 +1,12 @@
 (* Model L: node locks of the virtual-node network as a labelled transition system at the granularity of the
    yield points of simulaqron/virtual_node/virtual.py.
 
-   _get_global_lock (323-329)     poll while `locked`, then acquire: a request *arrives* at a node (EReq), stays a poller, and
+   _get_global_lock (324-329)     poll while `locked`, then acquire: a request *arrives* at a node (EReq), stays a poller, and
                                   is granted (EAcq) only when the lock is free; there is no timeout.
    _release_global_lock (335-338) `if locked: release()` - no owner test: ERel clears the lock whoever holds it.
    remote_new_qubit, _single_gate, remote_measure, remote_add_qubit: one node lock around the body        -> KOne
    remote_send_qubit (674-738)    own lock, held across the receiver's add_qubit (which takes the receiver's lock) -> KSend / KSend3
-   _lock_nodes (1383-1442)        request all nodes, race against a timer; on timeout `d_lock.cancel()` makes every request
+   _lock_nodes (1391-1449)        request all nodes, race against a timer; on timeout `d_lock.cancel()` makes every request
                                   deferred `called`, so release_global_lock is sent to EVERY node of the attempt; the remote
                                   requests that were not granted stay alive at their node (orphans) and acquire later for ever.
    The DeferredLock never queues (check and acquire are in one atomic segment), so a lock is an `option owner`. *)
@@ -221,7 +221,7 @@ Definition step (cfg : list okind) (s : st) (e : ev) : option st :=
       | SRun _ [] None => Some (set_op s o SDone)
       | SG2Rel [] => Some (set_op s o SDone)
       | SG2 reqs =>
-          (* `yield self._lock_inreg(self)` (virtual.py:1521) sits between _lock_nodes and the `try`: an exception there ends the
+          (* `yield self._lock_inreg(self)` (virtual.py:1528) sits between _lock_nodes and the `try`: an exception there ends the
              operation with every node lock still held *)
           if all_granted reqs then Some (set_op s o SDone) else None
       | SAny [] => Some (set_op s o SDone)
